@@ -94,6 +94,12 @@ class Factory:
         kind = p[0]
         if kind == "raw":  # raw:<label>:<size>:<salt>
             return prbytes(spec, int(p[2]))
+        if kind == "mix":  # mix:<label>:<size>:<variant>:<salt> - only 0x00 / 0xFF bytes (a partially programmed flash area)
+            n, v, salt = int(p[2]), int(p[3]), int(p[4])
+            k = 1 + salt % max(1, n - 1) if n > 1 else 1
+            z, f = b"\x00", b"\xff"
+            return {0: z * k + f * (n - k), 1: f * k + z * (n - k), 2: (z + f) * (n // 2) + z * (n % 2), 3: f * (k - 1) + z + f * (n - k),
+                    4: z * (k - 1) + f + z * (n - k), 5: z * n, 6: f * n}[v][:n]
         if kind == "fcb":  # fcb:<size>:<salt>:<0|1 swapped tag>
             from spsdk.image.fcb.fcb import FCB
             tag = FCB.TAG_SWAPPED if p[3] == "1" else FCB.TAG
@@ -375,6 +381,9 @@ def header_spec(T, row, segs, i, rng, sizes):
     if kd["parser"] in ("SegmentImageVersion", "SegmentImageVersionAntiPole"):
         return f"iv:{rng.choice([0, 1, 0xFFFF, 0x1234, rng.randrange(1 << 16)])}"
     n = {"size": size, "1": 1, "gap": gap or size, "gap-1": (gap or size + 1) - 1, "size-1": size - 1}.get(sizes, size)
+    if salt % 3 == 1 and kd["parser"] == "Segment" and size > 0:
+        # payloads of 0x00 / 0xFF bytes only: prefix/suffix mixes, alternating, a single 00 among FFs and vice versa, uniform blocks
+        return f"mix:{kd['label']}:{min(n, size) if sizes in ('gap', 'gap-1') else n}:{(salt // 3) % 7}:{salt}"
     return f"raw:{kd['label']}:{n}:{salt}"
 
 
@@ -544,6 +553,8 @@ def run_case(T, F, case, rowinfo, full_cache):
     res["merge"] = f"M:{init};{','.join(off_str)};{ln_s};{ex_s}"
     present = [(kd, o, raw) for (kd, off), s, raw, o in zip(segs, bimg._segments, raws, offs) if raw and o is not None and not s.excluded]
     res["cls"] = f"{len(present)}seg/init{'0' if init == 0 else '>0'}/{case.get('sizes', 'size')}"
+    if any(isinstance(v, str) and v.startswith("mix:") for v in case["segs"].values()):
+        res["cls"] += "/00FF-mix"
     if ex[0] != "ok" or ln[0] != "ok":
         fail("export()/len() raised for supplied segments that fit", (ln_s, ex_s))
         return res
@@ -609,7 +620,12 @@ def run_case(T, F, case, rowinfo, full_cache):
         size = kd["size"]
         if size > 0 and kd["parser"] != "SegmentXmcd":
             window = data[o:o + size]
-            ok = got == window and got[:len(raw)] == raw[:size]
+            blocks = [{"zeros": b"\x00", "ones": b"\xff"}.get(pn, b"") * size for pn in kd["patterns"]]
+            if kd["parser"] == "Segment" and window in blocks:
+                # EXACTLY one uniform fill block: indistinguishable from "not supplied" by design (the only payload that may vanish)
+                ok = got == b""
+            else:
+                ok = got == window and got[:len(raw)] == raw[:size]
         else:
             ok = got == raw
         if not ok:
